@@ -55,8 +55,9 @@ WellFormed(s) == /\ s.endpoint = "otherBindingOnly" =>
                                           /\ s.irt = "id1" /\ s.sirt = "id1" /\ s.dest = "own" /\ s.recip = "url")
                  /\ (s.sameFrom => s.irt = "id1" /\ s.sirt \in {"id1", "id2"} /\ s.conf2 = "absent" /\ s.endpoint = "configured"
                                    /\ s.aud = "me" /\ s.dest \in {"own", "none"} /\ ~s.regex)
+                 \* (the first confirmation names the request, or no request at all)
                  /\ s.conf2 # "absent" => /\ s.endpoint = "configured" /\ s.aud = "me" /\ s.dest \in {"own", "none"} /\ ~s.regex
-                                          /\ s.irt = "id1" /\ s.sirt = "id1"
+                                          /\ s.irt = "id1" /\ s.sirt \in {"id1", "none"}
 
 \* the scenarios, built slice by slice (filtering the full product of Scn costs TLC a minute)
 MkW(irt, sirt, dest, aud, recip, regex, binding, enc, endpoint, conf2, conf2first, sameFrom, mtype, conv, window) ==
@@ -71,7 +72,7 @@ Scenarios ==
     \cup Mk({"id1"}, {"id1"}, Dest \ {"patternOnly"}, {"me"}, Recip, BOOLEAN, Bind, {FALSE}, {"triples"}, {"absent"}, {FALSE}, {FALSE}, {"authn"}, BOOLEAN)
     \cup Mk({"id1"}, {"id1"}, {"none"}, Aud, {"url"}, {FALSE}, {"post"}, {FALSE}, {"configured"}, {"absent"}, {FALSE}, {FALSE}, {"attribute"}, {FALSE})
     \cup Mk({"id1"}, {"id1", "id2"}, {"own", "none"}, {"me"}, Recip, {FALSE}, Bind, BOOLEAN, {"configured"}, {"absent"}, {FALSE}, {TRUE}, {"authn"}, BOOLEAN)
-    \cup Mk({"id1"}, {"id1"}, {"own", "none"}, {"me"}, Recip, {FALSE}, Bind, BOOLEAN, {"configured"}, {"own", "foreign", "otherIrt"}, BOOLEAN, {FALSE}, {"authn"}, BOOLEAN)
+    \cup Mk({"id1"}, {"id1", "none"}, {"own", "none"}, {"me"}, Recip, {FALSE}, Bind, BOOLEAN, {"configured"}, {"own", "foreign", "otherIrt"}, BOOLEAN, {FALSE}, {"authn"}, BOOLEAN)
     \cup Mk(Irt, Sirt, {"own", "foreign", "none"}, {"me"}, {"url", "foreign"}, {FALSE}, {"artifact"}, {FALSE}, {"configured"}, {"absent"}, {FALSE}, {FALSE},
             {"authn"}, BOOLEAN)
     \cup MkW({"id1"}, {"id1"}, {"own"}, Aud, {"url"}, {FALSE}, Bind, BOOLEAN, {"configured"}, {"absent"}, {FALSE}, {FALSE}, {"authn"}, BOOLEAN,
